@@ -364,7 +364,9 @@ class G:
         'single': ['a  b', '(', ')', '-stdin', ':> x', '<<EOF', '@[X ]@', '=', '!', '&&', '|', '"', '$HOME', 'a\\b',
                    '', ' ', '#', '*', 'ü 日'],
         'double': ['a  b', '(', ')', '-stdin', ':>', "it's", '=', '&&', '|', '', '#x', '*', ';', 'ü'],
-        'bs': ['a b', '(x)', '&&', '|', '"', "'", '$X', '*', ';', '#', '<', '>', 'a\\b'],
+        'bs': ['a b', '(x)', '&&', '|', '"', "'", '$X', '*', ';', '#', '<', '>', 'a\\b',
+               # values that END in white space: as the last word, the line ends with an escaped space / tab
+               'a ', ' ', 'end\t', 'two  '],
         'naked': ['w', '-o', '--opt=1', 'a/b', 'x.y', '0', 'A_B'],
     }
 
